@@ -385,4 +385,41 @@ mod harnesses {
     refuse!(c14_refuse_3d_to_3d, 1u8, 2u8);
     // @harness c14_refuse_3d_to_vec props=C14 tier=quick kind=bounded flags="--no-overflow-checks" bound="1x2x2 -> 5" what="refused (3-D -> vector)" timeout=600
     refuse!(c14_refuse_3d_to_vec, 1u8, 0u8);
+
+    // ---------------------------------------------------------------- C18: Tensor::random (modular on generate's verified contract)
+    fn now_stub() -> std::time::SystemTime {
+        let us: u32 = kani::any();
+        kani::assume(us < 1_000_000);
+        std::time::UNIX_EPOCH + std::time::Duration::from_micros(us as u64)
+    }
+    macro_rules! random_h {
+        ($name:ident, $shape:expr, $count:expr) => {
+            #[kani::proof]
+            #[kani::unwind(5)]
+            #[kani::stub(std::time::SystemTime::now, now_stub)]
+            #[kani::stub_verified(crate::random::Generator::generate)]
+            fn $name() {
+                let min: f32 = kani::any();
+                let max: f32 = kani::any();
+                kani::assume(min.is_finite() && max.is_finite() && min <= max);
+                let t = Tensor::random($shape, min, max);
+                // requested shape, recorded shape matches the data, every entry inside the interval
+                assert!(t.shape == $shape && shape_matches(&t));
+                let f = flat_of(&t);
+                assert!(f.len() == $count);
+                let mut i = 0;
+                while i < f.len() { assert!(f[i] >= min && f[i] <= max); i += 1; }
+                kani::cover!(f[0] != f[1]);
+                std::mem::forget(t);
+            }
+        };
+    }
+    // @harness c18_random_single props=C18 tier=quick kind=bounded modular=1 flags="--no-overflow-checks" bound="shape 2; every clock seed; every value generate's contract allows" what="Tensor::random: requested shape, all entries in [min,max]" timeout=900
+    random_h!(c18_random_single, Shape::Single(2), 2usize);
+    // @harness c18_random_double props=C18 tier=thorough kind=bounded modular=1 flags="--no-overflow-checks" bound="shape 1x2" what="Tensor::random 2-D" timeout=900
+    random_h!(c18_random_double, Shape::Double(1, 2), 2usize);
+    // @harness c18_random_triple props=C18 tier=thorough kind=bounded modular=1 flags="--no-overflow-checks" bound="shape 1x1x2" what="Tensor::random 3-D" timeout=1200
+    random_h!(c18_random_triple, Shape::Triple(1, 1, 2), 2usize);
+    // @harness c18_random_quadruple props=C18 tier=thorough kind=bounded modular=1 flags="--no-overflow-checks" bound="shape 1x1x1x2" what="Tensor::random 4-D" timeout=1200
+    random_h!(c18_random_quadruple, Shape::Quadruple(1, 1, 1, 2), 2usize);
 }
